@@ -32,6 +32,10 @@ CHECKS['C05'] = dict(engine='mirsym', category='other', design='DESIGN.md §6 C0
 CHECKS['C11'] = dict(engine='mirsym', category='other', design='DESIGN.md §6 C11',
    text="Stability of ids and definitions is the guarantee of the register_type step (executed from MIR from an arbitrary pre-state): interned prefix kept, existing definitions unchanged, closed under sequencing because the relation is proved reflexive and transitive by z3. Byte-identical replay: registration is executed by a deterministic interpreter and the MIR call graph of registry/interner/portable/meta_type/ty is scanned for nondeterministic APIs. Order independence up to renaming is derived (first-visit numbering, C16, C02) and only cross-checked natively on permutations of a type corpus.",
    note=STEP_NOTE + " The permutation statement is not solver-decided over MIR (stated in evidence.outside_the_claim).", technique='SMT-discharged inductive step over symbolically executed MIR; z3')
+CHECKS['C02'] = dict(engine='mirsym', category='model_checking', design='DESIGN.md §6 C02',
+   text="Bounded symbolic execution of the MIR of <Type as IntoPortable>::into_portable and every nested IntoPortable impl (TypeParameter, TypeDef and its seven payload structs, Field, Variant, Path, &'static str) on a symbolic MetaForm type: kind, primitive, presence of every Option, every vector length within the bound, array length and variant index are solver variables; strings and MetaTypes are opaque; Registry::register_type is an uninterpreted function id_of with a call log. On every path z3 refutes any difference between the output and the structural image of the input (MetaType m -> id_of(m), nothing else changed). Combined with C01(a) this yields the property by induction on the reference structure.",
+   note="Termination of registration on cyclic type graphs is argued (known-type case of C01(a)) and exercised natively on recursive/mutually recursive types, not solver-decided. register_type's real behaviour is C01(a)/C05. Counterexamples are confirmed by the native faithful-image battery (hand-written and derived types incl. docs, type names, BitVec).",
+   technique=TECH)
 NA = {
 }
 m = {
